@@ -178,14 +178,9 @@ func (c *Canary) knockDetector(ctx context.Context) {
 					return
 				}
 
-				// we have two timeouts, one to send notifications,
-				// one to remove the knock. This will detect portscans
-				// with a longer interval
-
-				// TODO(): make duration configurable
-				if k.Last.Add(time.Second * 60).After(now) {
-					defer knocks.Remove(k)
-				}
+				// a reported group is done: later probes from the same
+				// source start a new group (and a new event)
+				defer knocks.Remove(k)
 
 				ports := make([]string, k.Knocks.Count())
 
